@@ -3,7 +3,8 @@
    two-element frozensets compared as sets).  Soundness holds for every environment, every
    pair of expressions of any depth, every point. *)
 From Coq Require Import List ZArith NArith Bool.
-From TF Require Import Base Query Index DB Spec proofs.QueryP.
+From TF Require Import Base Query Index DB Spec proofs.QueryP QuerySem proofs.QueryGenP.
+From TF Require gen.QueryGen.
 Import ListNotations.
 
 Theorem C17_eq_sound : forall E q1 q2, qeq q1 q2 = true -> forall p, eval E q1 p = eval E q2 p.
@@ -25,6 +26,19 @@ Theorem C17_map_never_equal : forall q q', has_map q = true -> qeq q q' = false 
 Proof. exact map_never_equal. Qed.
 Theorem C17_noop_never_equal : forall a q, qeq (QNoop a) q = false /\ qeq q (QNoop a) = false.
 Proof. exact noop_never_equal. Qed.
+(* the identity of query objects REGENERATED from tinyflux/queries.py on every run (gen/QueryGen.v: the `_hash` key built by every
+   comparison, exists, matches, search, test, noop, by &, | and ~ of both classes, the hashability rules, __eq__ of both classes):
+   Python's == on the keys the source builds is the model's hv_eqb; the key of a query built the way the DSL builds it is the model's
+   qhash; q1 == q2 as the source decides it is the model's qeq - for every pair of queries.  With C17_eq_sound: queries the SOURCE calls
+   equal evaluate alike on every point. *)
+Theorem C17_source_keys_are_the_model : forall x y, pyh_eqb (enc x) (enc y) = hv_eqb x y.
+Proof. exact enc_eqb. Qed.
+Theorem C17_source_hash_is_the_model : forall q, gen_qhash q = enc_o (qhash q).
+Proof. exact gen_qhash_eq. Qed.
+Theorem C17_source_identity_is_the_model : forall q1 q2, gen_qeq q1 q2 = qeq q1 q2.
+Proof. exact gen_qeq_eq. Qed.
+Theorem C17_source_equal_queries_behave_alike : forall E q1 q2, gen_qeq q1 q2 = true -> forall p, eval E q1 p = eval E q2 p.
+Proof. exact gen_qeq_sound. Qed.
 Example C17_nonvacuous : exists q1 q2, q1 <> q2 /\ qeq q1 q2 = true.
 Proof. exact qeq_example. Qed.
 
@@ -34,3 +48,7 @@ Print Assumptions C17_and_comm.
 Print Assumptions C17_or_comm.
 Print Assumptions C17_map_never_equal.
 Print Assumptions C17_noop_never_equal.
+Print Assumptions C17_source_keys_are_the_model.
+Print Assumptions C17_source_hash_is_the_model.
+Print Assumptions C17_source_identity_is_the_model.
+Print Assumptions C17_source_equal_queries_behave_alike.
